@@ -98,6 +98,16 @@ def cases(tier, seed):
     step = 3 if tier == "quick" else 1
     progs += base[::step]
     out = []
+    sliced = set(progs)
+    for text in base:
+        # the declared-types configurations (where conditions over untyped auxiliaries are abstracted as coins) run on
+        # every program of the grammar that has a condition, not only on the slice
+        if text in sliced or not ("if" in text or "while true" not in text):
+            continue
+        goals = gen.goals_for(text, 2, 3)
+        for cfg in configs(tier):
+            if cfg["types"] == "declared":
+                out.append({"input": {"text": text, "config": cfg, "goals": goals}, "N": 4})
     for text in progs:
         goals = gen.goals_for(text, 2, 3 if tier == "quick" else 5)
         for ci, cfg in enumerate(configs(tier)):
